@@ -80,6 +80,17 @@ CLAIMED = {
              "certified truth, for glpk and glpk_exact.",
         note=LP_NOTE, technique="Lean 4 proof (verified certificate checker, weak duality / Farkas) + certified differential testing of GLPK answers",
         design="DESIGN.md section 5, C04"),
+    "C05": dict(
+        engine="lp",
+        text="Lean 4: the FVA region is exactly {feasible v | objective >= fraction x optimum} (region_is_fraction_constraint); certified optima of the "
+             "two step LPs bound every vector of the region, so min <= max (ranges_are_true_extremes); every optimal FBA solution lies inside for "
+             "fraction in [0,1] and a non-negative optimum (optimal_solution_inside); regions are nested in the fraction; the pfba_factor cap on "
+             "sum(forward+reverse) is a cap on sum|v| (total_flux_cap_is_abs). Every reported minimum/maximum is compared with optima certified "
+             "by the proved checker on the independently built region (fractions, pfba_factor, subsets by id or object, max and min models).",
+        note=LP_NOTE + " Loopless FVA (CycleFreeFlux post-processing) is not proved exact: checked to lie inside the plain ranges, min <= max, and to equal "
+             "the plain ranges on networks without internal cycles (exact rank test).",
+        technique="Lean 4 proof (formulation theorems over the verified LP layer) + certified differential testing of FVA ranges",
+        design="DESIGN.md section 5, C05"),
 }
 
 PENDING_REASON = "check under construction in this session (see DESIGN.md section 9 build order); not claimed until its Lean model, theorems and correspondence exist"
@@ -118,7 +129,7 @@ def main():
              "kind_free_text": "Lean model DLM + theorems (lean/CobraModel/{Model,Lemmas,Props}) and op-sequence correspondence against cobra.core.DictList"},
             {"name": "core", "path": "harness/core_engine.py", "serves_properties": ["C01", "C02", "C03", "C07"],
              "kind_free_text": "Lean Core model (content + solver + undo stack as functions over ids), theorems in Props/C01,C02,C03,C07, traces on the real model with raw GLPK read-out"},
-            {"name": "lp", "path": "harness/lpcert.py", "serves_properties": ["C04"],
+            {"name": "lp", "path": "harness/lpcert.py", "serves_properties": ["C04", "C05"],
              "kind_free_text": "Lean LP model + proved certificate checker (Model/LP.lean, Lemmas/LP.lean), untrusted exact simplex, constructive FBA instance generator"},
             {"name": "gpr", "path": "harness/c08.py", "serves_properties": ["C08"],
              "kind_free_text": "Lean model GPRM (rule trees, parser, remover) + generated escape tables + correspondence against cobra.core.gene.GPR"},
